@@ -797,6 +797,8 @@ def dsm_configs(tier):
         for dist in ("NormalLifetime", "FixedLifetime"):
             out.append(dict(n_t=4, labels=(), dist=dist, over="number", n_pts=1, inflow_at="middle"))
         out.append(dict(n_t=4, labels=("a",), dist="NormalLifetime", over="all", n_pts=1, inflow_at="middle"))
+    for dist in ("NormalLifetime", "FixedLifetime"):
+        out.append(dict(n_t=4, labels=(), dist=dist, over="number", n_pts=1, inflow_at="middle", grid="uneven-unit-span"))
     # one label smaller than the other by many orders of magnitude (factor eps^2): a threshold derived from the LARGEST value of the
     # whole array must not touch the small label
     for dist in ("NormalLifetime", "FixedLifetime") if tier == "quick" else DISTS:
@@ -815,7 +817,7 @@ def int_driver_configs(tier):
 
 
 def simple_configs(tier):
-    return [dict(n_t=n, labels=l) for n, l in ([(3, ()), (3, ("a",)), (4, ("a", "b"))] if tier == "quick" else [(3, ()), (3, ("a",)), (4, ("a", "b")), (5, ("a",)), (6, ())])]
+    return [dict(n_t=4, labels=(), grid="uneven-unit-span")] + [dict(n_t=n, labels=l) for n, l in ([(3, ()), (3, ("a",)), (4, ("a", "b"))] if tier == "quick" else [(3, ()), (3, ("a",)), (4, ("a", "b")), (5, ("a",)), (6, ())])]
 
 
 def histories(tier, dsm=True):
